@@ -35,6 +35,11 @@ async fn ensure_local_authority_with_paths(
     data_dir: PathBuf,
     workspace_root: PathBuf,
 ) -> anyhow::Result<String> {
+    // rip_verif only: inside this function `std::time::Instant` and `tokio::time::sleep` resolve to
+    // the scriptable clock of `verif` (real time unless a harness scripts it); everything else of
+    // `std` / `tokio` is passed through unchanged.
+    #[cfg(rip_verif)]
+    use verif::{std, tokio};
     std::fs::create_dir_all(&data_dir)?;
 
     let client = Client::builder()
@@ -215,6 +220,10 @@ async fn ensure_local_authority_with_paths(
 }
 
 async fn ping(client: &Client, server: &str) -> bool {
+    #[cfg(rip_verif)]
+    if let Some(reachable) = verif::scripted_ping(server) {
+        return reachable;
+    }
     let url = format!("{server}/openapi.json");
     match client.get(url).send().await {
         Ok(resp) => resp.status().is_success(),
@@ -223,6 +232,10 @@ async fn ping(client: &Client, server: &str) -> bool {
 }
 
 fn spawn_local_authority(data_dir: &Path, workspace_root: &Path) -> anyhow::Result<()> {
+    #[cfg(rip_verif)]
+    if verif::scripted_spawn() {
+        return Ok(());
+    }
     let exe = std::env::current_exe()?;
 
     let authority_dir = ripd::authority_dir(data_dir);
@@ -245,4 +258,157 @@ fn spawn_local_authority(data_dir: &Path, workspace_root: &Path) -> anyhow::Resu
 
     let _child = cmd.spawn()?;
     Ok(())
+}
+
+/// Verification-only controls (compiled only with `--cfg rip_verif`; no behaviour change unless a
+/// harness starts the scripted driver).  `RIP_VERIF_ENSURE=1 rip` runs the real
+/// `ensure_local_authority_with_paths` (RIP_DATA_DIR / RIP_WORKSPACE_ROOT as usual) in lock step with
+/// a harness on stdin/stdout: at every `auth.*` point of ripd's authority functions, at every ping
+/// and at every spawn the process prints one line (`point <name> <clock_ms>`, `ping <url> <clock_ms>`,
+/// `spawn <clock_ms>`) and waits for commands, one per line: `advance <ms>` (scripted clock),
+/// `live <pid> alive|dead|clear` (liveness table), `reach 0|1` (answer of this ping), `go` (continue).
+/// The clock the loop reads (`Instant::now`, `elapsed`, the back-off sleep) is the scripted clock: a
+/// sleep advances it and returns at once; a spawn is reported and not performed.  The last line is
+/// `result ok <endpoint>` or `result err <message>`.
+#[cfg(rip_verif)]
+pub(crate) mod verif {
+    use ::std::sync::atomic::{AtomicBool, AtomicU64, Ordering};
+    use ::std::time::Duration;
+
+    static SCRIPTED: AtomicBool = AtomicBool::new(false);
+    static CLOCK_MS: AtomicU64 = AtomicU64::new(0);
+    static REACH: AtomicBool = AtomicBool::new(false);
+
+    fn real_ms() -> u64 {
+        static START: ::std::sync::OnceLock<::std::time::Instant> = ::std::sync::OnceLock::new();
+        START
+            .get_or_init(::std::time::Instant::now)
+            .elapsed()
+            .as_millis() as u64
+    }
+
+    fn clock_ms() -> u64 {
+        if SCRIPTED.load(Ordering::SeqCst) {
+            CLOCK_MS.load(Ordering::SeqCst)
+        } else {
+            real_ms()
+        }
+    }
+
+    /// Millisecond instant of the scriptable clock (the real monotonic clock unless scripted).
+    #[derive(Debug, Clone, Copy, PartialEq, Eq, PartialOrd, Ord)]
+    pub struct Instant(u64);
+
+    impl Instant {
+        pub fn now() -> Self {
+            Instant(clock_ms())
+        }
+        pub fn elapsed(&self) -> Duration {
+            Duration::from_millis(clock_ms().saturating_sub(self.0))
+        }
+    }
+
+    impl ::std::ops::Add<Duration> for Instant {
+        type Output = Instant;
+        fn add(self, rhs: Duration) -> Instant {
+            Instant(self.0.saturating_add(rhs.as_millis() as u64))
+        }
+    }
+
+    pub mod std {
+        pub use ::std::*;
+        pub mod time {
+            pub use super::super::Instant;
+            #[allow(unused_imports)]
+            pub use ::std::time::{Duration, SystemTime, UNIX_EPOCH};
+        }
+    }
+
+    pub mod tokio {
+        #[allow(unused_imports)]
+        pub use ::tokio::*;
+        pub mod time {
+            pub async fn sleep(duration: ::std::time::Duration) {
+                if super::super::SCRIPTED.load(::std::sync::atomic::Ordering::SeqCst) {
+                    super::super::CLOCK_MS.fetch_add(
+                        duration.as_millis() as u64,
+                        ::std::sync::atomic::Ordering::SeqCst,
+                    );
+                    ::tokio::task::yield_now().await;
+                } else {
+                    ::tokio::time::sleep(duration).await;
+                }
+            }
+        }
+    }
+
+    /// One line to the harness, then its commands up to `go`.
+    fn exchange(line: &str) {
+        use ::std::io::{BufRead, Write};
+        {
+            let stdout = ::std::io::stdout();
+            let mut out = stdout.lock();
+            let _ = writeln!(out, "{line}");
+            let _ = out.flush();
+        }
+        let stdin = ::std::io::stdin();
+        loop {
+            let mut cmd = String::new();
+            match stdin.lock().read_line(&mut cmd) {
+                Ok(0) | Err(_) => ::std::process::exit(3), // the harness is gone
+                Ok(_) => {}
+            }
+            let words: Vec<&str> = cmd.split_whitespace().collect();
+            match words.as_slice() {
+                ["go"] => return,
+                ["advance", ms] => {
+                    CLOCK_MS.fetch_add(ms.parse().unwrap_or(0), Ordering::SeqCst);
+                }
+                ["reach", bit] => REACH.store(*bit == "1", Ordering::SeqCst),
+                ["live", pid, state] => {
+                    if let Ok(pid) = pid.parse::<u32>() {
+                        ripd::verif::authority::set_liveness(
+                            pid,
+                            match *state {
+                                "alive" => Some(ripd::PidLiveness::Alive),
+                                "dead" => Some(ripd::PidLiveness::Dead),
+                                _ => None,
+                            },
+                        );
+                    }
+                }
+                _ => {}
+            }
+        }
+    }
+
+    pub(super) fn scripted_ping(server: &str) -> Option<bool> {
+        if !SCRIPTED.load(Ordering::SeqCst) {
+            return None;
+        }
+        exchange(&format!("ping {server} {}", clock_ms()));
+        Some(REACH.load(Ordering::SeqCst))
+    }
+
+    pub(super) fn scripted_spawn() -> bool {
+        if !SCRIPTED.load(Ordering::SeqCst) {
+            return false;
+        }
+        exchange(&format!("spawn {}", clock_ms()));
+        true
+    }
+
+    pub(crate) async fn ensure_stdin() -> anyhow::Result<()> {
+        SCRIPTED.store(true, Ordering::SeqCst);
+        rip_kernel::verif::set_hook(Some(::std::sync::Arc::new(|name: &'static str| {
+            exchange(&format!("point {name} {}", clock_ms()))
+        })));
+        let result = super::ensure_local_authority().await;
+        rip_kernel::verif::set_hook(None);
+        match result {
+            Ok(endpoint) => println!("result ok {endpoint}"),
+            Err(err) => println!("result err {}", err.to_string().replace('\n', " ")),
+        }
+        Ok(())
+    }
 }
